@@ -515,6 +515,22 @@ def run_always_ready_neighbour(case: Dict[str, Any]) -> Dict[str, Any]:
     return {'viol': viol, 'nontrivial': True, 'sig': 'arn/%s/%s/%s' % (sorted(adv.items()), kind, mode), 'obs': obs, 'sample': {'case': case}}
 
 
+WS_HANDSHAKE = (b'GET /wsa HTTP/1.1\r\nHost: w.test\r\nUpgrade: websocket\r\nConnection: Upgrade\r\n'
+                b'Sec-WebSocket-Key: dGhlIHNhbXBsZSBub25jZQ==\r\nSec-WebSocket-Version: 13\r\n\r\n')
+# frames no conforming peer sends: length fields with the top bit set (negative when read as signed - two of them cancel the
+# header size exactly), lengths far beyond what follows, truncated headers, floods of empty frames, control frames
+WS_HOSTILE = [bytes.fromhex('817ffffffffffffffff6'), bytes.fromhex('81fffffffffffffffff2') + b'mask', bytes.fromhex('817f8000000000000000'),
+              bytes.fromhex('817f7fffffffffffffff') + b'few', bytes.fromhex('817fffffffffffffffff'), bytes.fromhex('817e'), bytes.fromhex('81'),
+              bytes.fromhex('817f00'), bytes.fromhex('81fe0005aa'), bytes.fromhex('8100') * 2000, bytes.fromhex('8800'), bytes.fromhex('8900'),
+              bytes.fromhex('817effff') + b'x' * 10, bytes.fromhex('f37f0000000000000000'), bytes.fromhex('817ffffffffffffffff5') + b'z',
+              bytes.fromhex('817ffffffffffffffff7') + b'zz', bytes.fromhex('8a7ffffffffffffffff6')]
+
+
+def ws_input(spec: Dict[str, Any]) -> bytes:
+    good = bytes.fromhex('8105') + b'hello'
+    return WS_HANDSHAKE + b''.join(good if k < 0 else WS_HOSTILE[k % len(WS_HOSTILE)] for k in spec['frames'])
+
+
 def run_case(case: Dict[str, Any]) -> Dict[str, Any]:
     if case['adv']['class'] == 'always-ready-neighbour':
         return run_always_ready_neighbour(case)
@@ -551,7 +567,8 @@ def run_case(case: Dict[str, Any]) -> Dict[str, Any]:
         def start_canary() -> None:
             box['canary1'] = Canary(rig, kind, rng, 'concurrent') if case.get('concurrent', True) else None
         A = adversary.Adversary(rig, adv, rng, case, c04._routes,
-                                make_bytes=(lambda hp_: c06.make_input(random.Random('c05b:%s:%s' % (case['seed'], case['i'])), adv['c06'], hp_))
+                                make_bytes=((lambda hp_: ws_input(adv['ws'])) if adv.get('kind') == 'ws' else
+                                            (lambda hp_: c06.make_input(random.Random('c05b:%s:%s' % (case['seed'], case['i'])), adv['c06'], hp_)))
                                 if adv['class'] == 'bytes' else None, holes=holes, before_client=start_canary)
         canary1 = box['canary1']
         adversary_act = A.act
@@ -670,6 +687,8 @@ def run_case(case: Dict[str, Any]) -> Dict[str, Any]:
         rig.close()
     import zlib
     sh = zlib.crc32(''.join(sched).encode())
+    if adv.get('kind') == 'ws':
+        obs['hostile_websocket_frame_cases'] = 1
     obs.update({'class:' + adv['class']: 1, 'canary:' + kind: 1, 'mode:' + mode: 1, 'both_registered': 1 if both_registered else 0,
                 'slow_iterations>1s': slow_iter, 'task_exceptions_swallowed': len(texc)})
     return {'viol': viol, 'nontrivial': both_registered, 'sig': '%s/%s/%s/%s/%x' % (feat, sorted(adv.items()), kind, mode, sh),
@@ -707,6 +726,10 @@ def cases(tier: str, seed: int):
                              'what': rng.choice(['long-target', 'long-header', 'many-headers', 'long-method', 'no-crlf', 'crlf-flood']),
                              'names': rng.choice([['get', 'get'], ['web', 'web'], ['post', 'get'], ['connect', 'get'], ['chunked', 'chunked']])}
         yield mk({'class': 'bytes', 'kind': kind, 'c06': c, 'ending': rng.choice(['close', 'reset', 'silence']), 'ncuts': rng.choice([0, 2, 9])})
+    for k in range(120 if tier == 'quick' else 1500):
+        frames = [rng.choice([-1, -1] + list(range(len(WS_HOSTILE)))) for _ in range(rng.randint(1, 4))]
+        yield mk({'class': 'bytes', 'kind': 'ws', 'ws': {'frames': frames}, 'ending': rng.choice(['close', 'reset', 'silence', 'silence']),
+                  'ncuts': rng.choice([0, 0, 1, 2])})
     # (3) misbehaving upstreams in every role that has one
     for rep in range(5 if tier == 'quick' else 40):
         for role in ('forward', 'forward-post', 'tunnel', 'reverse'):
@@ -761,7 +784,7 @@ def cases(tier: str, seed: int):
 def floors(tier: str) -> Dict[str, int]:
     return {'both_registered': 2000, 'canary_concurrent_equal': 2000, 'canary_after_equal': 2500, 'faults_fired': 60,
             'class:prefix': 200, 'class:bytes': 300, 'class:reverse-switch': 150, 'tls_front_aborts': 4, 'idle_connections_reaped': 30, 'class:upstream': 60, 'class:fault': 150, 'mode:remote': 100,
-            'distinct:schedules': 500}
+            'distinct:schedules': 500, 'hostile_websocket_frame_cases': 60}
 
 
 if __name__ == '__main__':
